@@ -10,6 +10,7 @@ import (
 	"strings"
 	"sync"
 	"time"
+	"unicode/utf8"
 
 	"verifh/cases"
 	"verifh/model"
@@ -223,7 +224,7 @@ func checkC19(c *Ctx) {
 			gb = append(gb, "json_v1_key_set_differs")
 		}
 		var v2a, v2b map[string]json.RawMessage
-		if json.Unmarshal([]byte(a.JSONv2), &v2a) != nil {
+		if json.Unmarshal([]byte(a.JSONv2), &v2a) != nil || !utf8.ValidString(a.JSONv2) {
 			gb = append(gb, "json_v2_invalid")
 		} else if json.Unmarshal([]byte(b.JSONv2), &v2b) == nil {
 			strip := func(m map[string]json.RawMessage) map[string]json.RawMessage {
@@ -286,7 +287,7 @@ func replayOddNames(c *Ctx, raw json.RawMessage) bool {
 		return true
 	}
 	var v2 map[string]json.RawMessage
-	if json.Unmarshal([]byte(r.JSONv2), &v2) != nil {
+	if json.Unmarshal([]byte(r.JSONv2), &v2) != nil || !utf8.ValidString(r.JSONv2) {
 		return true
 	}
 	fc, gb := footCase(r)
